@@ -862,6 +862,12 @@ func minLen(v ssa.Value, b *ssa.BasicBlock) (int64, bool) {
 		if sl.Low != nil {
 			k, ok := guards.ConstInt(sl.Low)
 			if !ok {
+				// x[len(x)-k:] has exactly k elements whenever the slice expression does not panic
+				if bo, isB := sl.Low.(*ssa.BinOp); isB && sl.High == nil && bo.Op == token.SUB && isLenOf(bo.X, sl.X) {
+					if k2, ok2 := guards.ConstInt(bo.Y); ok2 && k2 >= 0 {
+						return k2, true
+					}
+				}
 				return 0, false
 			}
 			lo = k
